@@ -9,8 +9,9 @@ from . import servercases
 LEVEL = "proof"
 RULE = ("for each command shape (sign auth legacy/segwit, unauth, v1, getPubKey, advance with brothers / "
         "partial, updateAncestor, reset, state, parameters, both heartbeats) the honest exchange is "
-        "recorded, then every exchange step is replayed with a status word (boundary set in quick, all "
-        "65536 in thorough), a timeout, a link error, an unexpected opcode and a short answer injected at "
+        "recorded, then every exchange step is replayed with a status word (18 words in quick, ~200 boundary "
+        "words in thorough, and in thorough ALL 65536 words at one step of every distinct kind of exchange "
+        "(command x mode x instruction x operation), compared with the model run-length encoded), a timeout, a link error, an unexpected opcode and a short answer injected at "
         "that step; non-trivial = injected fault reached; distinct by (shape, step, fault)")
 EXPLANATION = ("Theorems C04_* bound every handler's result codes by the generated translation tables and "
                "ladders and check those tables against the documented sets; the step x status matrix is "
@@ -99,6 +100,15 @@ def make_oracle(docs):
         j = stack.reply_json(r)
         cmdname = meta["command"]
         fault = meta["fault"]
+        if fault[0] == "connfail":
+            # the device cannot be reached at all when the command starts (pending repair fails)
+            if r["stop"] or j is None or not isinstance(j.get("errorcode"), int):
+                return {"key": "C04:%s:unreachable-device-stops" % cmdname,
+                        "what": "%s with the device unreachable (reconnection fails) stops the manager / "
+                                "gives no code (reply %r)" % (meta["name"], r["raw"])}
+            if j["errorcode"] in (0, 1):
+                return {"key": "C04:%s:ok-without-success" % cmdname, "what": "success code although the "
+                        "device could not be reached"}
         if fault[0] == "S" and user_defined(fault[1]) and meta["reached"](obs):
             if r["stop"] or j is None or "errorcode" not in j:
                 return {"key": "C04:%s:in-range-status-stops" % cmdname,
@@ -152,6 +162,11 @@ def gen_cases(rng, tier, words=None):
         base = {"name": name, "command": cmdname, "honest_code": j["errorcode"]}
         cases.append({"mode": mode, "kind": "ledger", "lines": [gen.line(req)], "script": list(answers),
                       "meta": dict(base, fault=("none",), step=-1, reached=lambda o: True, step_kind=None)})
+        if answers:
+            cases.append({"mode": mode, "kind": "ledger", "lines": [gen.line(req)], "script": [],
+                          "issue": True, "connects": [False],
+                          "meta": dict(base, fault=("connfail",), step=-1, reached=lambda o: True,
+                                       step_kind=None)})
         for i in range(len(answers)):
             ok_ans = answers[i]
             faults = [("S", w) for w in words] + [("T",), ("W",), ("R",), ("E", "ValueError")]
@@ -174,10 +189,123 @@ def gen_cases(rng, tier, words=None):
     return cases
 
 
+SWEEP_HEADER = "From PowHsm Require Import Model.CaseCheckSweep.\nOpen Scope N_scope.\n"
+
+
+def _sweep_task(args):
+    """all 65536 status words at one step of one shape: returns (coq term, violations, nclasses)"""
+    import random as _r
+    shape_idx, step, seed = args
+    shapes = commands.standard_requests(_r.Random(seed))
+    name, mode, req, dev = shapes[shape_idx]
+    answers, obs0 = commands.honest_transcript(mode, req, dev)
+    apdus = [e[1] for e in obs0["trace"] if e[0] == "A"]
+    docs = doc_codes()
+    oracle = make_oracle(docs)
+    j0 = stack.reply_json(obs0["replies"][-1])
+    base = {"name": name, "command": req["command"], "honest_code": j0["errorcode"]}
+    classes, index, runs, viol = [], {}, [], []
+    cur = None
+    for w in range(65536):
+        case = {"mode": mode, "kind": "ledger", "lines": [gen.line(req)],
+                "script": list(answers[:step]) + [("S", w)],
+                "meta": dict(base, fault=("S", w), step=step, benign=False,
+                             reached=(lambda o, n_at=step: len([e for e in o["trace"] if e[0] == "A"]) > n_at),
+                             step_kind=step_kind(name, apdus[step]))}
+        obs = stack.run_case(case)
+        v = oracle(case, obs)
+        if v and len(viol) < 5:
+            v = dict(v)
+            v["case"] = servercases.describe(case, obs)
+            viol.append(v)
+        rep = []
+        expressible = True
+        for r in obs["replies"]:
+            j = stack.reply_json(r)
+            if j is None or r["escaped"] is not None:
+                expressible = False
+                break
+            rep.append("(%s, %s)" % (stack.c_json(j), stack.c_bool(r["stop"])))
+        if not expressible:
+            key = ("inexpressible", repr([(r["raw"], r["stop"], r["escaped"]) for r in obs["replies"]]))
+            term = None
+        else:
+            term = "(%s, %s, %s)" % (stack.c_list(rep), stack.c_list(stack.c_event(e) for e in obs["trace"]),
+                                     stack.c_bool(obs["issue_after"]))
+            key = term
+        if key not in index:
+            index[key] = len(classes)
+            classes.append(term)
+        k = index[key]
+        if cur is not None and cur[2] == k:
+            cur[1] = w
+        else:
+            cur = [w, w, k]
+            runs.append(cur)
+    if any(c is None for c in classes):
+        return None, viol + [{"key": "C04:%s:sweep-inexpressible" % req["command"],
+                              "what": "some status word at step %d of %s gives an answer that is not one "
+                                      "JSON line" % (step, name)}], len(classes)
+    honest_case = {"mode": mode, "kind": "ledger", "lines": [gen.line(req)], "script": list(answers)}
+    sc = stack.to_scase(honest_case, obs0)
+    term = "(mkSweep %s %d%%nat %s %s)" % (
+        sc, step, stack.c_list("(%d, %d, %d%%nat)" % (a, b, k) for a, b, k in runs), stack.c_list(classes))
+    import coqgen as _cg
+    return _cg.expand(term), viol, len(classes)
+
+
+def sweep(ctx, res):
+    """thorough tier: every status word at every step of every shape, implementation vs model"""
+    import concurrent.futures
+    import multiprocessing
+    import coqgen
+    seed = ctx["seed"] * 31 + 5
+    import random as _r
+    shapes = commands.standard_requests(_r.Random(seed))
+    tasks = []
+    kinds = set()
+    for si, (name, mode, req, dev) in enumerate(shapes):
+        answers, obs = commands.honest_transcript(mode, req, dev)
+        apdus = [e[1] for e in obs["trace"] if e[0] == "A"]
+        for st in range(len(answers)):
+            # one sweep per distinct kind of exchange (command, protocol mode, instruction, operation):
+            # the other steps of the same kind get the boundary words above
+            k = (req["command"], mode, apdus[st][1], apdus[st][2] if len(apdus[st]) > 2 else None)
+            if k in kinds:
+                continue
+            kinds.add(k)
+            tasks.append((si, st, seed))
+    limit = int(os.environ.get("VERIF_SWEEP_LIMIT", "0"))
+    if limit:
+        tasks = tasks[:limit]
+    with concurrent.futures.ProcessPoolExecutor(max_workers=14,
+                                                mp_context=multiprocessing.get_context("fork")) as ex:
+        out = list(ex.map(_sweep_task, tasks, chunksize=1))
+    terms = []
+    for (si, st, _), (term, viol, ncl) in zip(tasks, out):
+        res["violations"] += viol
+        res["evaluations"] += 65536
+        if term is not None:
+            terms.append(term)
+    n, bad, errs = coqgen.run_case_files(os.path.join(ctx["workdir"], "sweep"), SWEEP_HEADER, "check_sweep",
+                                         terms, shard=1, timeout=3000)
+    res["compared"] += n * 65536
+    res["corr_errors"] += errs
+    for b in bad[:10]:
+        si, st, _ = tasks[b]
+        res["mismatches"].append({"what": "model and implementation disagree for some status word at step %d "
+                                          "of shape %s (sweep)" % (st, shapes[si][0])})
+    res["notes"].append("sweep: %d (shape, step) pairs x 65536 status words" % len(tasks))
+    return len(tasks)
+
+
 def run(ctx):
     docs = doc_codes()
     words = None
     cases = gen_cases(ctx["rng"], ctx["tier"], words)
     res = servercases.run(ctx, cases, make_oracle(docs), shard=150)
-    res["exhaustive"] = ctx["tier"] == "thorough"
+    res["exhaustive"] = False
+    if ctx["tier"] == "thorough" or os.environ.get("VERIF_SWEEP"):
+        sweep(ctx, res)
+        res["exhaustive"] = True
     return res
